@@ -123,6 +123,17 @@ CHECKS = {
         "DESIGN.md §4 C10",
         "A",
     ),
+    "C11": (
+        "model_checking",
+        "every solver query produced for the explored paths of generated tests and invariant projects is intercepted, read back with z3's SMT-LIB parser and compared assertion by assertion with Path.conditions; refined definitions are evaluated on boundary grids at every width",
+        "Seams (module attributes rebound in the harness): Path.to_smt2 and solve.dump. For every path handed to the solver by run_contract on the generated regular tests (26 static guards incl. add/mul/div/mod/sdiv/smod/exp/addmod/mulmod/keccak/storage, dynamic parameters) and on invariant projects at depth 2 - all of which extend a sliced "
+        "setUp or frontier state - with and without --cache-solver: the query text parses, has as many assertions as the path has conditions, each structurally equal (else equal after simplification) to the corresponding condition, ids equal to the conditions' ids, cache mode wraps each as `(=> |id| c)`; the dumped file has "
+        "the logic header, one (check-sat), (get-model), and in cache mode produce-unsat-cores, get-unsat-core and exactly one named assertion per id. refine() is applied to every query with an abstraction: only declare-fun f_evm_bv* lines may change, none may stay declared, and every produced definition (mul/udiv/urem/sdiv/srem at 256, 264 "
+        "and 512 bits) is evaluated on a 10x10 boundary grid against the exact EVM operation (x/0 = x%0 = 0, signed cases incl. INT_MIN/-1).",
+        "Trusted: z3's SMT-LIB parser and printer round trip (structural equality after re-parsing), the EVM reference arithmetic in props/c11_query.py. Solver replies are scripted (mc/solverstub.py) so that every query is refined; a subset runs with the real z3.",
+        "DESIGN.md §4 C11",
+        "A",
+    ),
     "C12": (
         "exploration",
         "exhaustive sweep over ABI type trees x length-candidate configurations; halmos's calldata is flattened to per-byte atoms and decoded by an independent ABI decoder for every choice of candidate lengths; a reader program on the real SEVM must explore exactly the product of the candidate lists",
